@@ -387,6 +387,14 @@ func (p *service) processUnsubscribe(msg *message.UnsubscribeMessage) error {
 // the ack cycle. This method will get the list of subscribers based on the publish
 // topic, and publishes the message to the list of subscribers.
 func (p *service) onPublish(msg *message.PublishMessage) error {
+	// The DUP flag of a received packet belongs to its transmission from the
+	// publisher. It is not handed on (MQTT-3.3.1-3): what is stored or forwarded
+	// here goes out for the first time, possibly with QoS 0, where a set DUP flag
+	// makes the packet malformed (MQTT-3.3.1-2). The receiving client keeps it.
+	if !p.client && msg.Dup() {
+		msg.SetDup(false)
+	}
+
 	if msg.Retain() {
 		// Retain makes a copy of msg.
 		verifMark(verifMarkRetainBegin, p)
